@@ -1144,7 +1144,7 @@ class Curve(BaseCurve):
             umin, umax = self.knotvector.limits
             cls = Fraction if isinstance(umin, (int, Fraction)) else float
             nodes_0to1 = heavy.NodeSample.closed_linspace(len(points), cls)
-            nodes = tuple(umin + (umax - umin) * node for node in nodes_0to1)
+            nodes = tuple((1 - node) * umin + node * umax for node in nodes_0to1)
         knotvector = tuple(self.knotvector)
         nodes = tuple(nodes)
         weights = None if self.weights is None else tuple(self.weights)
